@@ -8,9 +8,13 @@
 (*   alts  : sequence of [syms, meta];  sym = [ref, str, op, sep]          *)
 (*           ref = symbol name or, if str, the inline string; op in        *)
 (*           {"", "?", "*", "+"}; sep = separator symbol name or ""        *)
+(*           sym also carries name ("" = no assignment) and bool (?=)      *)
 (*   meta  : [prio (-1 = not given), assoc ("" | "left" | "right"),        *)
-(*           nops, nopse : BOOLEAN, kind ("" = not given)]                 *)
-(*   terms : sequence of [name, str ("" for regex terminals)]              *)
+(*           nops, nopse : BOOLEAN, kind ("" = not given),                 *)
+(*           user : sequence of <<key, value as text>>]                    *)
+(*   rules also carry ann ("" | annotation name)                           *)
+(*   terms : sequence of [name, str ("" for regex terminals), prio, assoc, *)
+(*           user]                                                         *)
 (* G is the grammar dumped by the hook after building.                     *)
 (*                                                                         *)
 (* Each use of ?, *, + denotes the LANGUAGE of its documented expansion    *)
@@ -108,5 +112,33 @@ BuilderDefects(doc, G) ==
                                 w == Own(rules[x[1]].alts[x[2]].meta, rules[x[1]].meta)
                             IN ~(p.prio = w.prio /\ p.assoc = w.assoc /\ p.nops = w.nops
                                  /\ p.nopse = w.nopse /\ p.kind = w.kind)}}
+      \* named / bool assignments: the name and the ?= flag stay with the symbol they were
+      \* written on (EMPTY contributes nothing, so positions are those of RealSyms)
+      assigns == {<<"assignment_differs", rules[u[1]].name, u[2], u[3], symOf(u).name>> :
+                    u \in {x \in okUses :
+                              LET p == Prod(G, prodsOf(x[1])[x[2]])
+                              IN ~(p.names[x[3]] = symOf(x).name /\ p.bools[x[3]] = symOf(x).bool)}}
+      \* user meta-data: the production's own keys, plus the rule's keys it does not give itself
+      pairs(sq) == {<<sq[i][1], sq[i][2]>> : i \in 1 .. Len(sq)}
+      keys(sq) == {sq[i][1] : i \in 1 .. Len(sq)}
+      wantUser(pm, rm) == pairs(pm.user) \cup {kv \in pairs(rm.user) : kv[1] \notin keys(pm.user)}
+      users == {<<"user_meta_data_differs", rules[ra[1]].name, ra[2]>> :
+                  ra \in {x \in (1 .. Len(rules)) \X (1 .. 6) :
+                            x[2] <= Len(rules[x[1]].alts) /\ x[2] <= Len(prodsOf(x[1])) /\
+                            pairs(Prod(G, prodsOf(x[1])[x[2]]).metav)
+                              # wantUser(rules[x[1]].alts[x[2]].meta, rules[x[1]].meta)}}
+      anns == {<<"annotation_differs", rules[r].name>> :
+                 r \in {x \in 1 .. Len(rules) :
+                          G.nonterms[NtByName(G, rules[x].name) - G.nterm + 1].ann # rules[x].ann}}
+      \* meta-data of terminals (priority 10 and no associativity unless given)
+      tmetas == {<<"terminal_meta_data_differs", doc.terms[i].name>> :
+                   i \in {j \in 1 .. Len(doc.terms) :
+                            LET d == doc.terms[j]
+                            IN HasTerm(G, d.name) /\
+                               LET t == G.terms[TermByName(G, d.name) + 1]
+                               IN ~(t.prio = (IF d.prio >= 0 THEN d.prio ELSE 10)
+                                    /\ t.assoc = (IF d.assoc = "" THEN "none" ELSE d.assoc)
+                                    /\ pairs(t.metav) = pairs(d.user))}}
   IN start \cup count \cup shape \cup plain \cup sugar \cup share \cup metas
+     \cup assigns \cup users \cup anns \cup tmetas
 =============================================================================
